@@ -44,10 +44,10 @@ Definition run_case (c : kcase) : kobs :=
    a_nonce a, a_bal a, m_feeacc s',
    negb (match cget OTHER (m_tree s') with Some (VRaw 7) => true | _ => false end)).
 
-(* For a transaction that SUCCEEDED only (failed, auth, nonce, fee) are compared:
-   what a successful handler writes is not the subject of C08. *)
+(* For a transaction that SUCCEEDED only (failed, auth, nonce) are compared: what a
+   successful handler writes (possibly to the fee-flow keys too) is not the subject of C08. *)
 Definition obs_eqb (a b : kobs) : bool :=
   let '(f1, p1, n1, b1, fa1, o1) := a in
   let '(f2, p2, n2, b2, fa2, o2) := b in
-  Bool.eqb f1 f2 && Bool.eqb p1 p2 && (n1 =? n2) && (fa1 =? fa2) &&
-  (if f1 then (b1 =? b2) && Bool.eqb o1 o2 else true).
+  Bool.eqb f1 f2 && Bool.eqb p1 p2 && (n1 =? n2) &&
+  (if f1 then (fa1 =? fa2) && (b1 =? b2) && Bool.eqb o1 o2 else true).
